@@ -177,9 +177,9 @@ func (sc *fkScenario) InitDb(db *boltz.DbImpl) error {
 func (sc *fkScenario) NewModel() explore.Model {
 	return &fkModel{sc: sc, owners: map[string]bool{}, widgets: map[string]*string{}}
 }
-func (sc *fkScenario) Ops() []explore.Op                       { return sc.ops }
-func (sc *fkScenario) Context(_ []int) boltz.MutateContext     { return explore.OrdinaryContext() }
-func (sc *fkScenario) Classify(err error) string               { return classifyCommon(err) }
+func (sc *fkScenario) Ops() []explore.Op                   { return sc.ops }
+func (sc *fkScenario) Context(_ []int) boltz.MutateContext { return explore.OrdinaryContext() }
+func (sc *fkScenario) Classify(err error) string           { return classifyCommon(err) }
 func (sc *fkScenario) Normalize(t *dump.Tree) *dump.Tree {
 	return t.PruneEmpty(func([]string) bool { return false })
 }
